@@ -148,6 +148,68 @@ def parameter_writes(repo, rel):
     return out
 
 
+def process_dependent_text(tree):
+    """Calls of the builtins id() / hash() whose value can reach text: inside an f-string, str()/repr()/format()/hex()/oct()/bin(),
+    a %-format or str.format / str.join argument, directly or through a local the value is assigned to (arithmetic and masking on
+    the way do not help: `hash(s) & 0xFFFFFFFF` is as process dependent as hash(s)).  hash() of a str/bytes/tuple-of-those depends
+    on PYTHONHASHSEED, id() on the allocator: neither may become part of a generated name.  Returns [(call, sink, function)]."""
+    out = []
+    TEXT = {"str", "repr", "format", "hex", "oct", "bin", "ascii"}
+
+    def sinks_of(node, stop):
+        """text-forming ancestors of node below `stop`"""
+        n = node
+        res = []
+        while n is not None and n is not stop:
+            par = getattr(n, "_parent", None)
+            if isinstance(par, (ast.FormattedValue, ast.JoinedStr)):
+                res.append(par)
+            elif isinstance(par, ast.Call) and n in par.args + [k.value for k in par.keywords]:
+                fn = dotted(par.func) or ""
+                if fn in TEXT or (isinstance(par.func, ast.Attribute) and par.func.attr in ("format", "join")):
+                    res.append(par)
+            elif isinstance(par, ast.BinOp) and isinstance(par.op, ast.Mod) and n is par.right and isinstance(par.left, (ast.Constant, ast.JoinedStr)) \
+                    and (isinstance(par.left, ast.JoinedStr) or isinstance(par.left.value, str)):
+                res.append(par)
+            n = par
+        return res
+
+    for fdef in ast.walk(tree):
+        if not isinstance(fdef, (ast.FunctionDef, ast.AsyncFunctionDef)) or fdef.name in ("__hash__", "__eq__", "__ne__"):
+            continue
+        for c in ast.walk(fdef):
+            if not (isinstance(c, ast.Call) and isinstance(c.func, ast.Name) and c.func.id in ("id", "hash")):
+                continue
+            owner = c
+            while owner is not None and not isinstance(owner, (ast.FunctionDef, ast.AsyncFunctionDef, ast.Lambda)):
+                owner = getattr(owner, "_parent", None)
+            if owner is not fdef:
+                continue
+            for sk in sinks_of(c, fdef):
+                out.append((c, sk, fdef))
+            # through a local
+            st = c
+            while st is not None and not isinstance(st, ast.stmt):
+                st = getattr(st, "_parent", None)
+            tainted = set()
+            if isinstance(st, (ast.Assign, ast.AnnAssign, ast.AugAssign)):
+                tg = st.targets if isinstance(st, ast.Assign) else [st.target]
+                tainted = {t.id for t in tg if isinstance(t, ast.Name)}
+            for _ in range(3):
+                more = set()
+                for st2 in ast.walk(fdef):
+                    if isinstance(st2, ast.Assign) and any(isinstance(x, ast.Name) and x.id in tainted for x in ast.walk(st2.value)):
+                        more |= {t.id for t in st2.targets if isinstance(t, ast.Name)}
+                if more <= tainted:
+                    break
+                tainted |= more
+            for use in ast.walk(fdef):
+                if isinstance(use, ast.Name) and isinstance(use.ctx, ast.Load) and use.id in tainted:
+                    for sk in sinks_of(use, fdef):
+                        out.append((c, sk, fdef))
+    return out
+
+
 def run(repo, tier):
     r = Report("C09", tier, repo, level="other", design_ref="§3/C09")
     r.explanation = (
@@ -162,6 +224,7 @@ def run(repo, tier):
     r.rule("R9.1", "no iteration / arbitrary pick over a set-typed value unless sorted or order-insensitive", floor=1)
     r.rule("R9.2", "no run-time mutated process-global object flows into expression constructors, reference names or emitted text", floor=2)
     r.rule("R9.3", "no ordering or sort key is computed from id() or hash()", floor=1)
+    r.rule("R9.8", "the value of the builtins id() / hash() never reaches text (f-string, str/format/hex, %-format, join), directly or through locals", floor=1)
     r.rule("R9.5", "containers cached in the caller's parameters mapping are keyed context-uniquely (Type.__eq__ compares the context by identity)", floor=2)
     r.rule("R9.6", "names generated from the raw bytes of a numpy scalar use only the value-carrying bytes (no padding of unspecified content)", floor=1)
     r.rule("R9.7", "no one-shot iterator (map/zip/filter/iter/generator expression/itertools.*) bound at module or class level is traversed inside a function", floor=1)
@@ -349,6 +412,26 @@ def run(repo, tier):
     if n93 == 0:
         raise AnalysisError("R9.3 found no ordering site; the `x.key > y.key` anchors vanished")
 
+    # ------------------------------------------------------------------ R9.8 id()/hash() values in text
+    n98 = 0
+    for rel in files:
+        seen98 = set()
+        for c, sk, fdef in process_dependent_text(repo.tree(rel)):
+            k98 = (c.lineno, c.col_offset)
+            if k98 in seen98:
+                continue
+            seen98.add(k98)
+            n98 += 1
+            r.ob("R9.8", f"{rel}::{fdef.name} `{norm_src(c)}` reaches text", False,
+                 f"the value of `{norm_src(c)}` is formatted into a string (`{norm_src(sk)[:120]}`): hash() of strings depends on PYTHONHASHSEED and id() on the allocator, "
+                 "so a name or text built from it differs between processes", loc(rel, c))
+    probe = ast.parse("def make(ref, kind):\n    if len(ref) > 50:\n        ref = f'{kind}_{hash(ref) & 0xFFFFFFFF:08x}'\n    h = id(ref) % 1000\n    return ref + '_' + str(h)\n")
+    for par_ in ast.walk(probe):
+        for ch_ in ast.iter_child_nodes(par_):
+            ch_._parent = par_
+    if len({(c.lineno, c.col_offset) for c, _, _ in process_dependent_text(probe)}) != 2:
+        raise AnalysisError("R9.8 self-check failed: the detector does not see hash()/id() flowing into text in the built-in example")
+    r.ob("R9.8", "no id()/hash() value is formatted into text (detector self-check passed)", True, "", loc("expr.py", repo.tree("expr.py")))
     # ------------------------------------------------------------------ R9.5 caches inside the caller's parameters mapping
     # `Context.parameters` is the caller's object (kept when non-empty): containers stored into it outlive the context and are seen
     # by every later context that is given the same mapping.  They are keyed by expression keys; those bottom out in symbol keys
